@@ -306,6 +306,11 @@ def storeRootTree (n : Nat) (cached : Option Trie) (base : Trie) (pending : List
   | some t => .ok t
   | none => commitAuto n base pending
 
+/-- the operations `Store.Root()` hands to the tree: the pending state operations themselves when the argument of
+`CommitParallel` is `s.ss.txn.ops` (generated fact `rootCommitsPendingOpsUnfiltered`), otherwise some selection of them -/
+def handedOps (unfiltered : Bool) (keep : Op → Bool) (pending : List Op) : List Op :=
+  if unfiltered then pending else pending.filter keep
+
 /-- what `Store.Copy()` hands to the clone as cached commitment: nothing, unless the composite literal of `Copy` carries
 the field `sc` over (generated fact `copyCarriesCommitment`) -/
 def copyCached (carriesSc : Bool) (cached : Option Trie) : Option Trie := if carriesSc then cached else none
